@@ -98,20 +98,22 @@ def measure(pid, workdir):
     per = {}
     texts = {}
     unc = []
+    allr = set()
     for (rel, ls, cs, le, ce), cnt in sorted(regs.items()):
         p = per.setdefault(rel, dict(regions=0, executed=0))
         p["regions"] += 1
+        if rel not in texts:
+            try:
+                texts[rel] = open(os.path.join(src, rel)).read().split("\n")
+            except OSError:
+                texts[rel] = []
+        t = texts[rel][ls - 1].strip() if ls - 1 < len(texts[rel]) else ""
+        allr.add((rel, t))
         if cnt > 0:
             p["executed"] += 1
-        else:
-            if rel not in texts:
-                try:
-                    texts[rel] = open(os.path.join(src, rel)).read().split("\n")
-                except OSError:
-                    texts[rel] = []
-            t = texts[rel][ls - 1].strip() if ls - 1 < len(texts[rel]) else ""
-            if [rel, t] not in [[u[0], u[2]] for u in unc]:
-                unc.append([rel, ls, t])
+        elif [rel, t] not in [[u[0], u[2]] for u in unc]:
+            unc.append([rel, ls, t])
+    measure.all_regions = allr
     return per, unc
 
 
@@ -147,12 +149,21 @@ def stage(res, pid, tier, seed, workdir, configs_stats):
             if [u[0], u[2]] not in old:
                 old.append([u[0], u[2]])
         cur[pid] = old
+        allb = cur.get("_all", [])
+        have = {(a[0], a[1]) for a in allb}
+        for a in sorted(getattr(measure, "all_regions", set())):
+            if a not in have:
+                allb.append([a[0], a[1]])
+        cur["_all"] = allb
         json.dump(cur, open(rec, "w"), indent=0)
     new = []
-    if base is not None:
-        bset = {(b[0], b[1]) for b in base}
+    allbase = load_baseline().get("_all")
+    if base is not None and allbase is not None:
+        # NEW code = a region whose (file, source text) did not exist in the pinned tree at all; regions that existed
+        # and are merely not reached by this seed's streams are listed but do not escalate
+        bset = {(b[0], b[1]) for b in base} | {(b[0], b[1]) for b in allbase}
         new = [u for u in unc if (u[0], u[2]) not in bset]
-        tc["baseline"] = "coverage_baseline.json (pinned tree, seeds 1-3)"
+        tc["baseline"] = "coverage_baseline.json (all regions of the pinned tree + its never-executed ones, seeds 1-3)"
     tc["new_uncovered"] = [f"{u[0]}:{u[1]}: {u[2][:100]}" for u in new]
     if new:
         # code the fixed generators do not reach: escalate on the real code (oracles only), then measure again
@@ -177,7 +188,6 @@ def stage(res, pid, tier, seed, workdir, configs_stats):
                 res.notes.append(f"escalated search failed to run: {str(e)[:120]}")
         per2, unc2 = measure(pid, workdir)
         if unc2 is not None:
-            bset = {(b[0], b[1]) for b in base}
             still = [u for u in unc2 if (u[0], u[2]) not in bset]
             tc["still_uncovered_after_escalation"] = [f"{u[0]}:{u[1]}: {u[2][:100]}" for u in still]
     tc["wall_s"] = round(time.time() - t0, 1)
